@@ -142,7 +142,7 @@ func runC13(e *Env) {
 			continue
 		}
 		seen[wkey{rule, key}] = true
-		if rule == "E5.owner" && fnName == "Policy.Assemble" && w.What == "store field Policy.arch" {
+		if rule == "E5.owner" && w.What == "store field Policy.arch" && idempotentArchDefault(w.Instr) {
 			nWhite++
 			r.OK(rule, key, p.Pos(w.Instr.Pos()), "whitelisted: unexported field, idempotent function of runtime.GOARCH, invisible through the API")
 			continue
@@ -572,4 +572,49 @@ func sameLoadedValue(a, b ssa.Value) bool {
 	la, ok1 := a.(*ssa.UnOp)
 	lb, ok2 := b.(*ssa.UnOp)
 	return ok1 && ok2 && la.Op == token.MUL && lb.Op == token.MUL && la.X == lb.X
+}
+
+
+// idempotentArchDefault: the store `p.arch = info` where info is the result of arch.GetInfo("") and the store is only
+// reached when p.arch was nil: an unexported cell, set to a function of runtime.GOARCH, invisible through the API -
+// wherever in the package it is written.
+func idempotentArchDefault(in ssa.Instruction) bool {
+	st, ok := in.(*ssa.Store)
+	if !ok {
+		return false
+	}
+	ex, ok := st.Val.(*ssa.Extract)
+	if !ok || ex.Index != 0 {
+		return false
+	}
+	c, ok := ex.Tuple.(*ssa.Call)
+	if !ok || !flow.CalleeIs(c, load.PkgArch, "GetInfo") || len(c.Call.Args) != 1 {
+		return false
+	}
+	if s, ok := flow.ConstString(c.Call.Args[0]); !ok || s != "" {
+		return false
+	}
+	fa, ok := st.Addr.(*ssa.FieldAddr)
+	if !ok {
+		return false
+	}
+	for _, cd := range flow.DomConds(st.Block()) {
+		cn := flow.Norm(cd)
+		bo, ok := cn.V.(*ssa.BinOp)
+		if !ok || !flow.IsNilConst(bo.Y) {
+			continue
+		}
+		ld, ok := bo.X.(*ssa.UnOp)
+		if !ok {
+			continue
+		}
+		fa0, ok := ld.X.(*ssa.FieldAddr)
+		if !ok || fa0.X != fa.X || fa0.Field != fa.Field {
+			continue
+		}
+		if (bo.Op == token.EQL && cn.Pol) || (bo.Op == token.NEQ && !cn.Pol) {
+			return true
+		}
+	}
+	return false
 }
